@@ -1,3 +1,4 @@
+mod alloc;
 mod env;
 mod gen;
 mod json;
@@ -6,6 +7,11 @@ mod rng;
 mod runner;
 mod sim;
 mod voicegen;
+mod w2;
+mod w2run;
+
+#[global_allocator]
+static GLOBAL: alloc::Counting = alloc::Counting;
 
 use std::collections::BTreeMap;
 use std::path::PathBuf;
@@ -95,6 +101,9 @@ fn main() {
         Some("replay") => cmd_replay(&args),
         Some("genvoice") => cmd_genvoice(&args),
         Some("run1") => cmd_run1(&args),
+        Some("w2") => w2run::cmd_w2(&args),
+        Some("w2worker") => w2run::cmd_worker(&args),
+        Some("w2exec") => w2run::cmd_exec_file(&args),
         _ => {
             eprintln!("usage: jbsim w1 <C02|C03|C19|C20> --tier quick|thorough [--seed N] [--runs N] [--workers N] --evidence F --replay-dir D --known F\n       jbsim replay <file>");
             2
@@ -170,6 +179,20 @@ fn cmd_replay(args: &Args) -> i32 {
                     println!("NOT-REPRODUCED property={} (history ran clean)", f.property);
                     0
                 }
+            }
+        }
+        ("W2", _) => {
+            let (sig, detail) = w2run::run_file_in_child(std::path::Path::new(path), 60);
+            if sig == "harness" {
+                println!("HARNESS-ERROR {}", detail);
+                2
+            } else if sig.is_empty() {
+                println!("NOT-REPRODUCED property=C18 (loader returned: {})", detail);
+                0
+            } else {
+                println!("REPRODUCED property=C18 signature={} detail={}", sig, detail);
+                println!("{}", if sig == f.signature { "SAME-SIGNATURE".to_string() } else { format!("DIFFERENT-SIGNATURE recorded={}", f.signature) });
+                1
             }
         }
         _ => {
